@@ -585,6 +585,7 @@ func runProperty(prop, tier string, seed uint64) int {
 	distinct := map[uint64]struct{}{}
 	sigs := map[uint64]struct{}{}
 	pairs := map[string]bool{}
+	pairsTotal := 0
 	pointsHit := map[int]bool{}
 	preSites := map[int]bool{}
 	policies := map[string]float64{}
@@ -657,6 +658,9 @@ func runProperty(prop, tier string, seed uint64) int {
 			}
 			if f, ok := o.stats["sig_file"].(string); ok {
 				readSet(f, sigs)
+			}
+			if t := int(num(o.stats, "set_pairs_total")); t > pairsTotal {
+				pairsTotal = t
 			}
 			if f, ok := o.stats["pairs_file"].(string); ok {
 				if b, err := os.ReadFile(f); err == nil {
@@ -810,6 +814,7 @@ func runProperty(prop, tier string, seed uint64) int {
 		"well_formed_checks":      int64(agg["probes.WellFormedChecks"]),
 		"equality_table_compares": int64(agg["eq_compared"]),
 		"set_neighbour_pairs_covered": int64(len(pairs)),
+		"set_neighbour_pairs_total":   int64(pairsTotal),
 		"library_panics_observed": int64(agg["probes.Panics"]),
 		"lock_blocks":             int64(agg["sim.LockBlocks"]),
 		"race_reports":            int64(agg["race_errors"]),
